@@ -62,7 +62,7 @@ def main():
                 raise V.Infra(f"corpus replay {cf} raised {type(e).__name__}: {e}")
             ctx.count("corpus_replays")
             if not ok:
-                ctx.fail(payload.get("key", "corpus"), "corpus witness fails again: " + payload.get("what", ""), {k: v for k, v in payload.items() if k not in ("what",)})
+                ctx.fail(payload.get("key", "corpus"), f"corpus witness {os.path.basename(cf)} fails again (when it was recorded: " + payload.get("what", "") + ")", {k: v for k, v in payload.items() if k not in ("what",)})
         module.run(ctx)
         return V.finish(ctx, module, lean)
     except V.Infra as e:
